@@ -548,7 +548,10 @@ class Project(MessageHandler):
 
         Also compute start/end dates for container tasks based on children.
         """
-        for task in self.tasks:
+        # Children are declared after their containers: walking the task list backwards
+        # completes inner containers before the containers that enclose them, so one pass
+        # lifts the status through every nesting level
+        for task in reversed(list(self.tasks)):
             if task.leaf():
                 continue  # Skip leaf tasks
 
